@@ -4,15 +4,7 @@ NOTES = ('Technique: machine-checked proof in Lean 4 about an executable model, 
          'regenerated tables (translator) and a differential correspondence check. See DESIGN.md. '
          'bin/check exits 0 (held), 1 (VIOLATION line), 2 (timeout, no verdict), 3 (the machinery itself is broken).')
 NOT_APPLICABLE = {}
-CHECKS = {
-    'C06': {
-        'text': 'Theorems C06_pass_iff / C06_failed_iff / C06_waits_silently / C06_bypass / C06_total decide the gate for '
-                'status vectors of every length, parametric in the ranking tuple, reducer and if/elif chain that are '
-                're-extracted from check_build_status on every run (C06_table discharges the well-formedness obligation by '
-                'decide). The model is tied to the real function by an exhaustive differential run (14 040 cells).',
-        'note': 'Trusted: Lean kernel, the AST extractor, the stub job. The statuses are those returned by the host for the '
-                'current integration tips; histories in which tips move between report and evaluation belong to the '
-                'system-level checks (C03).',
-        'technique': 'Lean 4 proof (parametric decision theorem + decide on regenerated table) + exhaustive differential correspondence',
-    },
-}
+import glob, json, os
+CHECKS = {}
+for _f in sorted(glob.glob(os.path.join(os.path.dirname(__file__), 'manifest', 'C*.json'))):
+    CHECKS[os.path.basename(_f)[:-5]] = json.load(open(_f))
